@@ -245,6 +245,15 @@ Definition store_equivb (a b : store) : bool :=
 (* the stronger relation the refinement actually establishes *)
 Definition store_same (a b : store) : Prop := forall id, st_get id a = st_get id b.
 
+(* documents of a history are decoded msgpack maps: keys are unique *)
+Definition doc_wf (d : doc) : Prop := NoDup (map fst d).
+Definition batch_wf (b : batch) : Prop :=
+  match b with
+  | BInsert ps | BUpdate ps => Forall (fun p => doc_wf (snd p)) ps
+  | BDelete _ => True
+  end.
+Definition hist_wf (h : list batch) : Prop := Forall batch_wf h.
+
 (* ============================ invariant (Prop) ============================ *)
 
 (* lookup of a document through the p<uuid>i and n<nid>d keys *)
